@@ -33,7 +33,45 @@ pub fn jwk(cex: &Value) -> Result<String, String> {
       keys.push((format!("OKP d={d}"), Jwk::from_params(JwkParamsOkp { crv: "Ed25519".into(), x: "x".into(), d: dv }), d));
     }
     keys.push(("oct".into(), Jwk::from_params(JwkParamsOct { k: "k".into() }), true));
-    for (name, k, private) in &keys {
+    // a private member that is present but empty is present
+    keys.push(("EC d=\"\"".into(), Jwk::from_params(JwkParamsEc { crv: "P-256".into(), x: "x".into(), y: "y".into(), d: Some(String::new()) }), true));
+    keys.push(("OKP d=\"\"".into(), Jwk::from_params(JwkParamsOkp { crv: "Ed25519".into(), x: "x".into(), d: Some(String::new()) }), true));
+    for bit in 0..6u8 {
+      let mut r = rsa(0);
+      let e = Some(String::new());
+      match bit {
+        0 => r.d = e,
+        1 => r.p = e,
+        2 => r.q = e,
+        3 => r.dp = e,
+        4 => r.dq = e,
+        _ => r.qi = e,
+      }
+      keys.push((format!("RSA private member #{bit} empty"), Jwk::from_params(r), true));
+    }
+    // keys read from JSON: empty private members, and a declared type that differs from the family of the parameters they carry
+    // (serde's untagged parameter enum lets those in) - the private member is there whatever the declared type says
+    for (text, private) in [
+      (r#"{"kty":"OKP","crv":"Ed25519","x":"x","d":""}"#, true),
+      (r#"{"kty":"EC","crv":"P-256","x":"x","y":"y","d":""}"#, true),
+      (r#"{"kty":"EC","crv":"Ed25519","x":"x","d":"d"}"#, true),
+      (r#"{"kty":"EC","crv":"Ed25519","x":"x"}"#, false),
+      (r#"{"kty":"OKP","crv":"P-256","x":"x","y":"y","d":"d"}"#, true),
+      (r#"{"kty":"RSA","crv":"Ed25519","x":"x","d":"d"}"#, true),
+      (r#"{"kty":"oct","crv":"Ed25519","x":"x","d":"d"}"#, true),
+      (r#"{"kty":"OKP","n":"n","e":"e","d":"d"}"#, true),
+      (r#"{"kty":"EC","n":"n","e":"e","qi":"qi"}"#, true),
+      (r#"{"kty":"EC","k":"k"}"#, true),
+      (r#"{"kty":"OKP","k":"k"}"#, true),
+      (r#"{"kty":"RSA","k":"k"}"#, true),
+    ] {
+      if let Ok(k) = serde_json::from_str::<Jwk>(text) {
+        keys.push((format!("from JSON {text}"), k, private));
+      }
+    }
+    let incoherent_from = keys.iter().position(|(n, _, _)| n.starts_with("from JSON {\"kty\":\"EC\",\"crv\":\"Ed25519\"")).unwrap_or(keys.len());
+    for (ki, (name, k, private)) in keys.iter().enumerate() {
+      let coherent = ki < incoherent_from;
       if k.is_public() == *private {
         log.push(format!("[public] {name}: is_public() = {}", k.is_public()));
       }
@@ -43,12 +81,12 @@ pub fn jwk(cex: &Value) -> Result<String, String> {
       }
       match k.to_public() {
         None => {
-          if k.kty() != JwkType::Oct {
+          if k.kty() != JwkType::Oct && coherent {
             log.push(format!("[public] {name}: no public projection"));
           }
         }
         Some(p) => {
-          if !p.is_public() || p.kty() != k.kty() {
+          if !p.is_public() || (coherent && p.kty() != k.kty()) {
             log.push(format!("[public] {name}: projection is_public={} kty={:?}", p.is_public(), p.kty()));
           }
           let text = serde_json::to_string(&p).unwrap();
@@ -56,6 +94,11 @@ pub fn jwk(cex: &Value) -> Result<String, String> {
             if text.contains(m) {
               log.push(format!("[public] {name}: projection serialises private member {m}"));
             }
+          }
+          // (a key whose declared type differs from its parameter family - serde lets those in, see DESIGN.md - is re-typed by the
+          // projection; only "public exactly when no private member" and the constructors are observed for those)
+          if !coherent {
+            continue;
           }
           if p.thumbprint_sha256_b64() != k.thumbprint_sha256_b64() {
             log.push(format!("[thumbprint] {name}: thumbprint changes with the private part"));
